@@ -172,6 +172,13 @@ func (p *Plugin) RestoreReservation(ctx context.Context, cycleState fwktype.Cycl
 				}
 			}
 			remained := subtractAllocated(copyDeviceResources(allocatable), allocated, false)
+			if hasNegativeDeviceResources(remained) {
+				// Owner pods hold more on a reserved device than the reservation reserved there (reserved part + node-free
+				// part of the same device). Only the part that the reservation covers is booked twice in the cache (reserve
+				// pod + owner), so only that part may be handed back as preemptible; the rest is ordinary pod usage.
+				remained = subtractAllocated(copyDeviceResources(allocatable), allocated, true)
+				allocated = subtractAllocated(copyDeviceResources(allocatable), remained, true)
+			}
 
 			result = append(result, reusableAlloc{
 				rInfo:       rInfo,
@@ -195,6 +202,19 @@ func (p *Plugin) RestoreReservation(ctx context.Context, cycleState fwktype.Cycl
 	cycleState.Write(reservationRestoreStateKey, state)
 
 	return s, nil
+}
+
+func hasNegativeDeviceResources(m map[schedulingv1alpha1.DeviceType]deviceResources) bool {
+	for _, devices := range m {
+		for _, resources := range devices {
+			for _, quantity := range resources {
+				if quantity.Sign() < 0 {
+					return true
+				}
+			}
+		}
+	}
+	return false
 }
 
 func (p *Plugin) PreRestoreReservationPreAllocation(ctx context.Context, cycleState fwktype.CycleState, r *frameworkext.ReservationInfo) *fwktype.Status {
